@@ -214,13 +214,22 @@ class MonitoredQueue(queue.Queue):
     """Counts items put / taken and what the worker has completely processed (it came back to ``get``).
 
     ``vf_fast_full``: a ``put`` with a timeout on a full queue raises ``queue.Full`` at once - the timeout of the library
-    (1 s of real time) elapsing while the worker stays blocked, without the wait."""
+    (1 s of real time) elapsing while the worker stays blocked, without the wait.
+
+    ``vf_worker_first``: schedule control - the thread that enqueued an operation is not scheduled again before the worker has
+    completely processed that item (it came back to ``get``): everything the worker emits for the transaction is on the wire before
+    the enqueuing (HTTP) thread executes its next line.  A legal schedule (preemption right after ``put``); decided on the
+    item counters, the wall-clock bound only guards against a hang (``vf_worker_first_timeouts``)."""
 
     vf_put = 0
     vf_taken = 0
     vf_done = 0
     vf_fast_full = False
     vf_full_raised = 0
+    vf_worker_first = False
+    vf_worker_first_waits = 0
+    vf_worker_first_timeouts = 0
+    vf_hang_guard_s = 20.0
 
     def _put(self, item):
         self.vf_put += 1
@@ -238,11 +247,30 @@ class MonitoredQueue(queue.Queue):
     def put(self, item, block=True, timeout=None):
         if self.vf_fast_full and block and timeout is not None:
             try:
-                return super().put(item, block=False)
+                res = super().put(item, block=False)
             except queue.Full:
                 self.vf_full_raised += 1
                 raise
-        return super().put(item, block, timeout)
+        else:
+            res = super().put(item, block, timeout)
+        if self.vf_worker_first and isinstance(item, tuple):
+            self._vf_wait_processed()
+        return res
+
+    def _vf_wait_processed(self):
+        import time
+        with self.mutex:
+            mine = self.vf_put  # items are processed in order: once vf_done >= mine, the item of this thread is through
+            self.vf_worker_first_waits += 1
+        t_end = time.time() + self.vf_hang_guard_s
+        while True:
+            with self.mutex:
+                if self.vf_done >= mine:
+                    return
+            if time.time() > t_end:
+                self.vf_worker_first_timeouts += 1
+                return
+            time.sleep(0.0002)
 
     def vf_quiescent(self) -> bool:
         with self.mutex:
